@@ -317,6 +317,7 @@ func rulesHygiene(cx *Ctx, prop string) []Obligation {
 	obs = append(obs, ruleNoInPlaceWrite(cx, prop)...)
 	obs = append(obs, rulesMulAccElsewhere(cx, prop)...)
 	obs = append(obs, ruleDeferDiscipline(cx, prop)...)
+	obs = append(obs, ruleRangeCheckerOwnership(cx, prop)...)
 	return obs
 }
 
@@ -752,4 +753,56 @@ func ruleCollectedOnlyGrows(cx *Ctx, prop string) []Obligation {
 		return []Obligation{undecided(key, desc, "no store into Chip.rangeCheckCollected was found (the collecting append was expected)")}
 	}
 	return []Obligation{good(key, desc, fmt.Sprintf("%d store(s), all of the form list = append(list, …)", n))}
+}
+
+// ruleRangeCheckerOwnership (RC): every n-bit range check of the circuit goes through the Goldilocks chip's dispatcher.
+// The chip predicts the base width gnark's commit-based checker will choose from the checks IT collected and refuses
+// to build unless that width is 16 and every collected width is a multiple of it (gnark ≤ 0.9.1 under-checks
+// misaligned widths). A check handed to gnark's checker directly — `rangecheck.New(api).Check(v, n)` in a wrapper
+// circuit, say — is invisible to that prediction: it changes the number of checks gnark sees (and with it the base
+// width gnark picks) and its own width is not guarded. Rule: `rangecheck.New` and `Rangechecker.Check` are used in
+// package goldilocks only.
+func ruleRangeCheckerOwnership(cx *Ctx, prop string) []Obligation {
+	P := cx.P
+	key := prop + "/RC/only-the-chip-range-checks"
+	desc := "gnark's range checker is created and called only inside package goldilocks (the chip's constructor, dispatcher and drain): a check handed to it from anywhere else escapes the chip's base-width prediction and alignment guards, and changes the base width gnark picks for the collected ones"
+	var sites []string
+	nIn := 0
+	for _, fn := range P.ModuleFuncsSorted() {
+		if !circuitPackage(fn) {
+			continue
+		}
+		for _, b := range fn.Blocks {
+			for _, ins := range b.Instrs {
+				c, ok := ins.(ssa.CallInstruction)
+				if !ok {
+					continue
+				}
+				hit := false
+				com := c.Common()
+				if com.IsInvoke() && com.Method != nil && com.Method.Name() == "Check" && strings.HasSuffix(ifaceShort(com.Method), "frontend.Rangechecker.Check") {
+					hit = true
+				}
+				if g := com.StaticCallee(); g != nil && g.Pkg != nil && g.Pkg.Pkg.Path() == "github.com/consensys/gnark/std/rangecheck" && g.Name() == "New" {
+					hit = true
+				}
+				if !hit {
+					continue
+				}
+				if fnPkgShort(fn) == "goldilocks" {
+					nIn++
+				} else {
+					sites = append(sites, P.Pos(ins.Pos())+" in "+P.FnName(fn))
+				}
+			}
+		}
+	}
+	if len(sites) > 0 {
+		sort.Strings(sites)
+		return []Obligation{bad(key, desc, "gnark's range checker is used outside the Goldilocks chip at "+strings.Join(sites, "; "))}
+	}
+	if nIn == 0 {
+		return []Obligation{undecided(key, desc, "no use of gnark's range checker was found at all: the matcher would pass vacuously")}
+	}
+	return []Obligation{good(key, desc, fmt.Sprintf("%d uses, all in package goldilocks", nIn))}
 }
